@@ -129,6 +129,13 @@ within = 'class DetailedPlacement\b'
 head = 'CellOrientation cellOrientation\(int c\) const'
 this_members = {file = "src/place_detailed/detailed_placement.hpp", class = "DetailedPlacement"}
 @*/
+static inline bool DetailedPlacement_isIgnored(const DetailedPlacement *this, int cell)
+/*@extract
+file = "src/place_detailed/detailed_placement.hpp"
+within = 'class DetailedPlacement\b'
+head = 'bool isIgnored\(int cell\) const'
+this_members = {file = "src/place_detailed/detailed_placement.hpp", class = "DetailedPlacement"}
+@*/
 /* the polarity of a placement cell is not needed by the repository text; if an edited body reads it, it is an arbitrary value */
 CellRowPolarity nondet_polarity(void);
 #define DetailedPlacement_cellRowPolarity(t, c) (nondet_polarity())
@@ -148,7 +155,7 @@ file = "src/place_detailed/detailed_placement.cpp"
 head = 'void DetailedPlacement::exportPlacement\(Circuit &circuit\)'
 nloops = 1
 this_members = {file = "src/place_detailed/detailed_placement.hpp", class = "DetailedPlacement"}
-rewrites = [['\bcircuit\.isFixed\(', 'Circuit_isFixed(circuit_p, ', '1+'], ['= cellX\(', '= DetailedPlacement_cellX(this, ', '1'], ['= cellY\(', '= DetailedPlacement_cellY(this, ', '1'], ['= cellRowPolarity\(', '= DetailedPlacement_cellRowPolarity(this, ', '*'], ['= cellOrientation\(', '= DetailedPlacement_cellOrientation(this, ', '1']]
+rewrites = [['\bcircuit\.isFixed\(', 'Circuit_isFixed(circuit_p, ', '*'], ['(?<![\w.>])isIgnored\(', 'DetailedPlacement_isIgnored(this, ', '*'], ['= cellX\(', '= DetailedPlacement_cellX(this, ', '1'], ['= cellY\(', '= DetailedPlacement_cellY(this, ', '1'], ['= cellRowPolarity\(', '= DetailedPlacement_cellRowPolarity(this, ', '*'], ['= cellOrientation\(', '= DetailedPlacement_cellOrientation(this, ', '1']]
 [[loops]]
 ordinal = 1
 contract = '''
